@@ -16,7 +16,7 @@
       step's value if declared, else the batch block's, else nothing;
     - [C15_holds c o] / [C15_ok c o] is the monitor that the check evaluates on
       the IMPLEMENTATION's scripts. *)
-From MWF Require Import Base.Str Gen.HeaderData Sched.Header Sched.Launcher Sched.Readers Sched.C15Proofs
+From MWF Require Import Base.Str Gen.HeaderData Sched.Header Sched.Launcher Sched.Readers Sched.JobNameProofs Sched.C15Proofs
   Sched.LsfProofs Sched.FluxProofs.
 Import ListNotations.
 
@@ -218,6 +218,23 @@ Print Assumptions C15_stateless.
 Theorem C15_regex_texts : regex_text_matches = true.
 Proof. vm_compute; reflexivity. Qed.
 Print Assumptions C15_regex_texts.
+
+(** ** The Slurm job name has no character on which [\s+] splits
+    ([is_py_space]: the code points Python's unicode [\s] matches, enumerated from
+    the running interpreter into Gen/HeaderData.v [py_space_points]); LSF and Flux
+    replace blanks only *)
+Theorem C15_slurm_job_name_no_ws : forall name,
+  forallb (fun c => negb (is_py_space c)) (slurm_job_name name) = true.
+Proof. exact slurm_job_name_no_ws. Qed.
+Print Assumptions C15_slurm_job_name_no_ws.
+
+(** a tab and a no-break space: "a<TAB>b<NBSP>c d" *)
+Example ex_job_name :
+  let name := [97; 9; 98; 160; 99; 32; 100]%N in
+  slurm_job_name name = s "a_b_c_d"
+  /\ under name = [97; 9; 98; 160; 99; 95; 100]%N
+  /\ is_py_space 9%N = true /\ is_py_space 160%N = true /\ is_py_space 8195%N = true /\ is_py_space 97%N = false.
+Proof. vm_compute. repeat split; reflexivity. Qed.
 
 (** ** Known finding K6a: the batch-level [gpus] never reaches the Slurm header *)
 Definition k6a_witness : case :=
